@@ -389,7 +389,7 @@ pub const PROP: Prop = Prop {
     generate,
     execute,
     shrink,
-    rule: "one run = one program (1..3 kernels out of 41 feature kernels, possibly split across evaluations, one of 858 harvested test groups = several evaluations sharing a context, or — 1 run in 8 each — a fault-free module graph from the C17 generator evaluated twice through the simulated loader, or one of C16's 1493 generated promise / async-generator programs) x evaluation mode (sync / budget 1..256 with collections at yields) x collection schedule (every k-th allocation for k in {1,2,3,7,64} — k=1 enumerates every allocation point of the program —, seeded Bernoulli at 0.2..20 %, host-entry and job boundaries), executed under the schedule and under 'never collect'; non-trivial = at least one collection was injected; distinct = distinct (program, schedule, budget, allocation points, collections fired)",
+    rule: "one run = one program (1..3 kernels out of 41 feature kernels, possibly split across evaluations, one of 858 harvested test groups = several evaluations sharing a context, or — 1 run in 8 each — a fault-free module graph from the C17 generator evaluated twice through the simulated loader, or one of C16's 2493 generated promise / async-generator programs) x evaluation mode (sync / budget 1..256 with collections at yields) x collection schedule (every k-th allocation for k in {1,2,3,7,64} — k=1 enumerates every allocation point of the program —, seeded Bernoulli at 0.2..20 %, host-entry and job boundaries), executed under the schedule and under 'never collect'; non-trivial = at least one collection was injected; distinct = distinct (program, schedule, budget, allocation points, collections fired)",
     real: &["lexer/parser/compiler/VM/builtins", "boa_gc collector and allocator", "SimpleJobExecutor", "WeakRef/FinalizationRegistry machinery"],
     stub: &["collection trigger decision (hook H1)", "SimClock", "SimHooks", "print/weakobs natives"],
     assumptions: &[
